@@ -48,12 +48,18 @@ HOOK_NAMES = [
 FLOORS = {
     "quick": {"lines": {"c09udp": 50000, "c09fwd": 55000, "c09ctl": 20000, "c09sched": 60000, "c09pipe": 16000},
               "counters": {"c09ctl": {"ctl.udppath.rounds-completed": 295, "ctl.writers.rendezvous": 500,
-                                      "ctl.scenario.coalesce-uncached": 200, "ctl.scenario.optimistic-cache": 300},
+                                      "ctl.scenario.coalesce-uncached": 200, "ctl.scenario.optimistic-cache": 300,
+                                      "ctl.op.respell": 10, "ctl.scenario.qtypes.64+65": 200, "ctl.att.cname-first": 300,
+                                      "ctl.udppath.big.rounds-completed": 36, "ctl.fwdlife.creation-race.rounds-completed": 36,
+                                      "ctl.fwdlife.retire-while-blocked": 100},
                            "c09pipe": {"pipe.recv.held": 1000, "pipe.cancel": 400, "pipe.closeswap": 600, "pipe.writefail": 150},
                            "c09sched": {"sched.at.e2r": 150, "sched.at.b5": 400}}},
     "thorough": {"lines": {"c09udp": 1700000, "c09fwd": 1600000, "c09ctl": 700000, "c09sched": 1900000, "c09pipe": 560000},
                  "counters": {"c09ctl": {"ctl.udppath.rounds-completed": 1480, "ctl.writers.rendezvous": 15000,
-                                         "ctl.scenario.coalesce-uncached": 7000, "ctl.scenario.optimistic-cache": 10000},
+                                         "ctl.scenario.coalesce-uncached": 7000, "ctl.scenario.optimistic-cache": 10000,
+                                         "ctl.op.respell": 300, "ctl.scenario.qtypes.64+65": 6000, "ctl.att.cname-first": 10000,
+                                         "ctl.udppath.big.rounds-completed": 270, "ctl.fwdlife.creation-race.rounds-completed": 360,
+                                         "ctl.fwdlife.retire-while-blocked": 3000},
                               "c09pipe": {"pipe.recv.held": 40000, "pipe.cancel": 15000, "pipe.closeswap": 25000, "pipe.writefail": 6000},
                               "c09sched": {"sched.at.e2r": 6000, "sched.at.b5": 15000}}},
 }
@@ -89,8 +95,9 @@ def write_shim(ctx):
 
 def oracle_ctl(ctx, ops, impl):
     """Property-level oracle evaluated directly on what the real controller wrote (independent of
-    the model's outputs): every written reply carries the asking client's id and question; every
-    cache entry answers its key; one upstream resolution per flight."""
+    the model's outputs): every written reply carries the asking client's id and question (name, type,
+    class); every cache entry's packed question answers its key; plus the lines the harness emits only on a
+    definite wrong observation (packet-path datagrams, forwarder lifecycle, error replies)."""
     clients = []
     n_replies = 0
     pending_respell = None
@@ -178,6 +185,9 @@ def oracle_fwd(ctx, ops, impl, label):
         last = (op, f, im)
 
 
+harness_crashes = []
+
+
 def oracle_pipe(ctx, ops, impl):
     """a message returned by RoundTrip carries the id the call wrote and was sent on the call's own
     connection (the tag encodes the connection the fake upstream sent it on)."""
@@ -194,6 +204,9 @@ def oracle_pipe(ctx, ops, impl):
             if mid != i or conn != c:
                 ctx.report(f"RoundTrip of waiter {t[2]} (connection {c}, id {i}) returned a message with id {mid} sent on connection {conn}",
                            {"op": op, "impl": im})
+        if op.startswith("P harness") and im.startswith("crash:"):
+            harness_crashes.append(f"{op} -> {im}")  # a panic of the harness itself (e.g. hook arguments of another shape)
+            continue
         if "unexpected:" in im or im.startswith("crash:"):
             # a yield point other than the one this step can reach, or a panic: definite observations
             # (a wait that merely ran out of time is an `X inconclusive` line, never a violation)
@@ -255,9 +268,10 @@ def run(ctx):
         if name == "c09pipe":
             oracle_pipe(ctx, lo, li)
         for op, im in zip(lo, li):
-            if im.startswith("crash:") or "crash:" in im:
+            if ("crash:" in im) and not op.startswith("P harness"):
                 ctx.report(f"real code panicked: {im}", {"stream": name, "op": op, "impl": im})
         mism = ctx.diff_streams(ops, impl, model, name)
+        mism = [m for m in mism if not m[1].startswith("P harness")]
         for ln, op, im, mo in mism[:6]:
             # context: the history since the last reset
             start = max(0, ln - 1)
@@ -314,10 +328,23 @@ def run(ctx):
         for k, m in cs.items():
             if name in stats_all and stats_all[name].get(k, 0) < m:
                 short.append(f"{name}: {k} = {stats_all[name].get(k, 0)}, floor {m}")
+    # the packet-path oracles only speak about datagrams that were actually read, and about handlers that did overlap
+    cc = stats_all.get("c09ctl", {})
+    replies = cc.get("ctl.udppath.reply.uncached=true", 0) + cc.get("ctl.udppath.reply.uncached=false", 0)
+    if cc.get("ctl.udppath.datagrams-checked", 0) < 0.95 * replies or replies == 0:
+        short.append(f"c09ctl: only {cc.get('ctl.udppath.datagrams-checked', 0)} of {replies} packet-path replies were read off the wire")
+    big = cc.get("ctl.udppath.big.reply", 0)
+    if cc.get("ctl.udppath.big.datagrams-checked", 0) < 0.95 * big or big == 0:
+        short.append(f"c09ctl: only {cc.get('ctl.udppath.big.datagrams-checked', 0)} of {big} oversized cached replies were read off the wire")
+    if cc.get("ctl.udppath.big.parked-before-send", 0) < 0.8 * big:
+        short.append(f"c09ctl: only {cc.get('ctl.udppath.big.parked-before-send', 0)} of {big} oversized-reply handlers overlapped before the send")
     for k, v in unrecovered.items():
         short.append(f"{k} = {v} (histories abandoned at different points on every retry: the machine is not scheduling the harness)")
     ctx.cov["floors"] = {"tier": ctx.tier, "unmet": short}
-    test_budget = os.environ.get("VERIF_C09_BUDGET_MS")
+    test_budget = os.environ.get("VERIF_C09_BUDGET_MS") if os.environ.get("VERIF_C09_SELFTEST") == "1" else None
+    if harness_crashes and not ctx.violations and not ctx.proof_failures:
+        ctx.say("HARNESS-FAILED property=C09 (the harness itself panicked; not an observation about /repo): " + "; ".join(harness_crashes[:3]))
+        return 2
     if short and not ctx.violations and not ctx.proof_failures:
         # not enough of the real code was executed for this run to be evidence of anything: an error of the run,
         # neither OK nor VIOLATION; the evidence file of record is left untouched
